@@ -12,7 +12,7 @@ _HIT = "(NewCond_DAP - NewCond_DelayedCDs - Crop.HIstartCD - 1)"
 contract(SOL + "biomass_accumulation.py", "biomass_accumulation",
          params=dict(Crop=OBJ("Crop"), NewCond_DAP="Int", NewCond_DelayedCDs="Int", NewCond_HIref="Real", NewCond_PctLagPhase="Real",
                      NewCond_B="Real", NewCond_B_NS="Real", Tr="Real", TrPot="Real", et0="Real", growing_season="Bool"),
-         requires=["implies(growing_season, et0 > 0 and Tr >= 0 and TrPot >= 0 and Crop.WP >= 0 and 0 <= Crop.WPy and Crop.WPy <= 100 and Crop.fCO2 >= 0)",
+         requires=["implies(growing_season, et0 >= 0 and Tr >= 0 and TrPot >= 0 and Crop.WP >= 0 and 0 <= Crop.WPy and Crop.WPy <= 100 and Crop.fCO2 >= 0)",
                    "0 <= NewCond_PctLagPhase and NewCond_PctLagPhase <= 100",
                    "implies(growing_season, (Crop.CropType == 1 or Crop.CropType == 2 or Crop.CropType == 3) and Crop.YldFormCD > 0)",
                    # state invariant established by HIref_current_day: a positive reference harvest index means yield formation has started
@@ -20,9 +20,10 @@ contract(SOL + "biomass_accumulation.py", "biomass_accumulation",
          returns=[("B", "Real"), ("B_NS", "Real")],
          ensures=[
              ("C05.biomass_nondecreasing", "implies(growing_season, B >= NewCond_B and B_NS >= NewCond_B_NS)"),
-             ("C06.biomass_gain_upper", "implies(growing_season, B - NewCond_B <= Crop.WP * Crop.fCO2 * (Tr / et0))"),
-             ("C06.biomass_gain_lower", "implies(growing_season, B - NewCond_B >= Crop.WP * (Crop.WPy / 100) * Crop.fCO2 * (Tr / et0))"),
-             ("C06.biomass_ns_gain", "implies(growing_season, B_NS - NewCond_B_NS <= Crop.WP * Crop.fCO2 * (TrPot / et0) and "
+             ("C06.biomass_gain_upper", "implies(growing_season and et0 > 0, B - NewCond_B <= Crop.WP * Crop.fCO2 * (Tr / et0))"),
+             ("C06.biomass_gain_lower", "implies(growing_season and et0 > 0, B - NewCond_B >= Crop.WP * (Crop.WPy / 100) * Crop.fCO2 * (Tr / et0))"),
+             ("C06.biomass_no_gain_without_demand", "implies(growing_season and et0 == 0, B == NewCond_B and B_NS == NewCond_B_NS)"),
+             ("C06.biomass_ns_gain", "implies(growing_season and et0 > 0, B_NS - NewCond_B_NS <= Crop.WP * Crop.fCO2 * (TrPot / et0) and "
                                      "B_NS - NewCond_B_NS >= Crop.WP * (Crop.WPy / 100) * Crop.fCO2 * (TrPot / et0))"),
              ("C05.biomass_zero_out_of_season", "implies(not growing_season, B == 0 and B_NS == 0)"),
          ],
@@ -191,7 +192,7 @@ contract(SOL + "canopy_cover.py", "canopy_cover",
          options=dict(inline=("cc_development", "cc_required_time", "adjust_CCx", "update_CCx_CDC"),
                       tier_b_kinds=("log_positive", "div_nonzero"),
                       # cut before the adjusted covers are computed: only the sign/order facts of the two covers are carried over
-                      cuts=[dict(before="NewCond.canopy_cover_adj = 1.72",
+                      cuts=[dict(before="NewCond.canopy_cover_adj = <anything but the constant 0>", before_re=r"NewCond\.canopy_cover_adj = (?!0$)",
                                  **{"assert": ["NewCond.canopy_cover >= 0", "NewCond.canopy_cover_ns >= NewCond.canopy_cover",
                                                "NewCond.canopy_cover <= 1", "NewCond.canopy_cover_ns <= 1", "NewCond.cc0_adj <= Crop.CC0", "NewCond.ccx_w <= 1", "NewCond.ccx_w_ns <= 1", "NewCond.ccx_act_ns <= 1",
                                                "NewCond.cc0_adj >= 0", "NewCond.ccx_act_ns >= 0", "NewCond.ccx_w >= 0",
